@@ -12,6 +12,10 @@ def _expoffset(x, A=2.0, tau=1.5, c=0.1):
     return A * np.exp(-x / tau) + c
 
 
+def _growth(x, a=1.2, b=0.7):
+    return a * np.exp(b * x)
+
+
 def _powerlaw(x, a=1.5, b=1.3):
     return a * x ** b
 
@@ -33,6 +37,8 @@ def _density(x, mu=2.5, sigma=1.0):
 
 
 FAMILIES = {
+    # steep model, x uncertainties dominate, start values away from the optimum: the iterative treatment needs several passes
+    "growth": dict(f=_growth, x=(0.0, 3.0, 12), truth=(1.0, 0.9), names=("a", "b"), noise=0.05, xnoise=0.25, rng=6),
     "expoffset": dict(f=_expoffset, x=(0.2, 6.0, 13), truth=(2.0, 1.5, -0.2), names=("A", "tau", "c"), noise=0.05),
     "exponential": dict(f=_exponential, x=(0.2, 5.0, 11), truth=(2.0, 1.5), names=("A", "tau"), noise=0.05),
     "powerlaw": dict(f=_powerlaw, x=(1.0, 6.0, 10), truth=(1.5, 1.3), names=("a", "b"), noise=0.25),
@@ -57,12 +63,19 @@ def make_fit(cfg, backend):
     else:
         F = FAMILIES[fam]
         x = np.linspace(*F["x"])
-        rng = np.random.RandomState(sum(map(ord, fam)))
-        y = F["f"](x, *F["truth"]) + rng.normal(0.0, F["noise"], len(x))
+        if "xnoise" in F:
+            g = np.random.default_rng(F["rng"])
+            xt = x
+            x = xt + g.normal(0, F["xnoise"], len(xt))
+            y = F["f"](xt, *F["truth"]) + g.normal(0, F["noise"], len(xt))
+        else:
+            rng = np.random.RandomState(sum(map(ord, fam)))
+            y = F["f"](x, *F["truth"]) + rng.normal(0.0, F["noise"], len(x))
         fit = XYFit([x, y], F["f"], minimizer=backend, dynamic_error_algorithm=cfg["dea"])
         fit.add_error("y", F["noise"], name="ey")
         if cfg["errors"] in ("xy", "xymodelrel"):
-            fit.add_error("x", 0.04, name="ex")
+            # sizeable x uncertainties for the iterative treatment: the iteration has to do several passes before it is a fixed point
+            fit.add_error("x", F.get("xnoise", 0.2 if cfg["dea"] == "iterative" else 0.04), name="ex")
         if cfg["errors"] == "xmodel":
             fit.add_error("x", 0.2, reference="model", name="exm")     # x uncertainty declared on the model only
         if cfg["errors"] in ("ymodelrel", "xymodelrel"):
@@ -71,7 +84,8 @@ def make_fit(cfg, backend):
     lims = {}
     if cfg["fixed"]:
         j = cfg["fixed"] - 1
-        fit.fix_parameter(names[j], truth[j] * 1.03)
+        # the offset of the exponential is fixed at exactly 0 (an integer), everything else near its true value
+        fit.fix_parameter(names[j], 0 if (cfg["family"] == "expoffset" and j == 2) else truth[j] * 1.03)
     if cfg["limited"]:
         j = cfg["limited"] - 1
         if cfg["limit"] == "inside":
@@ -111,11 +125,12 @@ def replay_walk(walk):
 
     fixed_val = None
     if cfg["fixed"]:
-        fixed_val = float(fit.parameter_values[cfg["fixed"] - 1])
+        j = cfg["fixed"] - 1
+        fixed_val = 0.0 if (cfg["family"] == "expoffset" and j == 2) else float(truth[j] * 1.03)       # the REQUESTED value
     state = {}
 
     def bookkeeping(k):
-        pv = np.asarray(fit.parameter_values, dtype=float)
+        pv = np.array(fit.parameter_values, dtype=float)
         if fixed_val is not None and pv[cfg["fixed"] - 1] != fixed_val:
             viol(k, "FixedUntouched: fixed parameter changed", dict(expected=fixed_val, actual=float(pv[cfg["fixed"] - 1])))
             return False
@@ -129,10 +144,10 @@ def replay_walk(walk):
     for k, e in enumerate(walk["steps"]):
         a = e["a"]
         if a["name"] in ("DoFit", "Refit"):
-            before = np.asarray(fit.parameter_values, dtype=float)
+            before = np.array(fit.parameter_values, dtype=float)
             fit.do_fit()
-            pv = np.asarray(fit.parameter_values, dtype=float)
-            pe = np.asarray(fit.parameter_errors, dtype=float)
+            pv = np.array(fit.parameter_values, dtype=float)
+            pe = np.array(fit.parameter_errors, dtype=float)
             sig = np.where(pe > 0, pe, 1e-3 * np.maximum(np.abs(pv), 1e-3))
             if a["name"] == "Refit" and np.any(np.abs(pv - before) > 0.05 * sig + 1e-9):
                 viol(k, "FixedPoint: a second do_fit moved the optimum", dict(first=before.tolist(), second=pv.tolist(), sigma=sig.tolist()))
@@ -162,7 +177,7 @@ def replay_walk(walk):
         elif a["name"] == "CrossBackend":
             f2, _, _, _ = make_fit(cfg, other)
             f2.do_fit()
-            p2 = np.asarray(f2.parameter_values, dtype=float)
+            p2 = np.array(f2.parameter_values, dtype=float)
             if np.any(np.abs(p2 - state["pv"]) > 0.1 * state["sig"] + 1e-7):
                 viol(k, "BackendsAgree: the two backends report different optima", dict(this=state["pv"].tolist(), other=p2.tolist(), sigma=state["sig"].tolist()))
                 return issues
